@@ -171,6 +171,13 @@ def run(tier: str, only=None) -> int:
     P = {"transport": "popen", "backend": "thread", "channels": [ch(up=1, down=2)], "size": 3, "short_reads": True}
     if not only or "chunk" in only:
         harness.run_exploration(rep, PID, "prog/chunking:popen", ChanProg, P, {"ps": 1, "env": 1, "free": 0} if tier == "quick" else {"ps": 1, "env": 3, "free": 1}, max_execs=cap)
+    # two sender threads per side preempted INSIDE the serializer / unserializer (items are nested
+    # containers, so serialising one takes many statements): nothing may leak between concurrent sends
+    sstmt = harness.stmt_mask(lambda m, q, l: m == "gateway_base" and (q.startswith("_Serializer.") or q.startswith("Unserializer.") or q in ("dumps_internal", "loads_internal", "Channel.send")))
+    for name, chans in (("two-chan", [ch(up=1, down=1), ch(up=1, down=1)]), ("two-senders", [ch(up=2, down=2, up_senders=2, down_senders=2)])):
+        if not only or "serial" in only:
+            P = {"transport": "popen", "backend": "thread", "channels": chans, "size": 2}
+            harness.run_exploration(rep, PID, f"prog/serializer:{name}", ChanProg, P, {"ps": 0, "pl": 1, "free": 0} if tier == "quick" else {"ps": 0, "pl": 2, "free": 0}, stmt=sstmt, max_execs=cap)
     # the cyclic collector finalizing another channel of the gateway in the middle of a send (small and
     # large items: a frame must stay whole whatever lands between its parts)
     for tr in ("popen", "socket", "via"):
